@@ -327,8 +327,9 @@ func runMain(propID, tier string) int {
 		bin    string
 		env    []string
 		lo, hi int
+		chunk  int
 	}
-	phases := []phase{{self, nil, 0, count}}
+	phases := []phase{{self, nil, 0, count, 0}}
 	if propID == "C18" {
 		yb, rb := os.Getenv("IKESIM_YIELD_BIN"), os.Getenv("IKESIM_RACE_BIN")
 		if yb == "" || rb == "" {
@@ -344,12 +345,39 @@ func runMain(propID, tier string) int {
 		extraCoverage["parallel_scenarios"] = count - ns
 		os.Setenv("IKESIM_C18_NSER", strconv.Itoa(ns))
 		phases = []phase{
-			{yb, []string{"IKESIM_C18_MODE=yield"}, 0, ns},
-			{rb, []string{"IKESIM_C18_MODE=race", "GORACE=halt_on_error=1 exitcode=66"}, ns, count},
+			{yb, []string{"IKESIM_C18_MODE=yield"}, 0, ns, 0},
+			{rb, []string{"IKESIM_C18_MODE=race", "GORACE=halt_on_error=1 exitcode=66"}, ns, count, 10},
 		}
 	}
 	var results []wr
 	for _, ph := range phases {
+		if ph.chunk > 0 {
+			// many short-lived worker processes: every process starts cold, so lazily initialised library
+			// state is exercised by overlapping FIRST uses again and again (C18 parallel phase)
+			type job struct{ lo, hi int }
+			var jobs []job
+			for lo := ph.lo; lo < ph.hi; lo += ph.chunk {
+				jobs = append(jobs, job{lo, min(lo+ph.chunk, ph.hi)})
+			}
+			pres := make([]wr, len(jobs))
+			sem := make(chan struct{}, wn)
+			done := make(chan int, len(jobs))
+			for i, j := range jobs {
+				go func(i int, j job) {
+					sem <- struct{}{}
+					r, se, err := spawnWorker(ph.bin, ph.env, []string{propID, tier, strconv.FormatUint(seed, 10), "0", "1", strconv.Itoa(j.lo), strconv.Itoa(j.hi)})
+					<-sem
+					pres[i] = wr{r, se, err, ph.bin, ph.env}
+					done <- i
+				}(i, j)
+			}
+			for range jobs {
+				<-done
+			}
+			extraCoverage["cold_process_starts_parallel_phase"] = len(jobs)
+			results = append(results, pres...)
+			continue
+		}
 		n := wn
 		if ph.hi-ph.lo < n {
 			n = ph.hi - ph.lo
